@@ -382,7 +382,13 @@ impl<T: El> MapWorld<T> {
         let pre = if self.cfg.flags.c02 || self.cfg.flags.c03 { Some(self.pre_info(op)) } else { None };
         // key identity: like std's map, no call other than the key-replacing entry methods swaps the
         // stored key object of an element that stays in the map (observable when Eq is coarser than identity)
-        let pre_keys: Option<Vec<(u32, u64)>> = if T::TRACKED && !self.cfg.flags.cheap && keys_stay(op.k) { Some(harness(|| self.m.iter().map(|(k, _)| (k.id(), k.obj())).collect())) } else { None };
+        // (only calls that hand the map a key which may equal a stored one can do that)
+        let hands_over_equal_key = match op.k {
+            OpK::Insert | OpK::EntryChain | OpK::RawChain => self.r.contains_key(&T::norm(op.key)),
+            OpK::ExtendOverlap | OpK::ExtendRef => true,
+            _ => false,
+        };
+        let pre_keys: Option<Vec<(u32, u64)>> = if T::TRACKED && !self.cfg.flags.cheap && hands_over_equal_key { Some(harness(|| self.m.iter().map(|(k, _)| (k.id(), k.obj())).collect())) } else { None };
         let res = catch(|| self.do_op(op));
         let obs = match res {
             Ok(Ok(o)) => o,
@@ -393,7 +399,11 @@ impl<T: El> MapWorld<T> {
             vbail!("ledger", "{}", f);
         }
         if let Some(pre_keys) = pre_keys {
-            let post: BTreeMap<u32, u64> = harness(|| self.m.iter().map(|(k, _)| (k.id(), k.obj())).collect());
+            let post: Vec<(u32, u64)> = harness(|| {
+                let mut v: Vec<(u32, u64)> = self.m.iter().map(|(k, _)| (k.id(), k.obj())).collect();
+                v.sort_unstable();
+                v
+            });
             let own_may_change = match op.k {
                 OpK::EntryChain => chain::may_replace_key(op.arg),
                 OpK::RawChain => chain::may_replace_key(op.arg >> 2),
@@ -401,7 +411,8 @@ impl<T: El> MapWorld<T> {
             };
             let mut bad = None;
             for &(id, obj) in &pre_keys {
-                if let Some(&o2) = post.get(&id) {
+                if let Ok(i) = post.binary_search_by_key(&id, |e| e.0) {
+                    let o2 = post[i].1;
                     if o2 != obj && !(own_may_change && id == T::norm(op.key)) {
                         bad = Some((id, obj, o2));
                         break;
@@ -930,6 +941,7 @@ impl<T: El> MapWorld<T> {
         let take = self.pred_set(op.key, code);
         let mut log: Vec<(u32, u32)> = Vec::with_capacity(self.r.len() + 1);
         let mut yielded: Vec<(u32, u32)> = Vec::with_capacity(self.r.len() + 1);
+        let mut counted: Option<usize> = None;
         let before: Vec<(u32, u32)> = self.r.iter().map(|(&a, &b)| (a, b)).collect();
         self.call(|m| {
             let mut it = m.drain_filter(|k, v| {
@@ -939,7 +951,7 @@ impl<T: El> MapWorld<T> {
                 harness(|| log.push((a, b)));
                 take.contains(&a)
             });
-            let limit = if mode == MODE_CONSUME { usize::MAX } else { prefix as usize };
+            let limit = iter_limit(mode, prefix);
             let mut n = 0;
             while n < limit {
                 match it.next() {
@@ -961,11 +973,12 @@ impl<T: El> MapWorld<T> {
                     }
                 }
             }
-            if mode == MODE_FORGET_AT {
-                std::mem::forget(it);
-            } else {
-                drop(it);
-            }
+            counted = finish_iter(it, mode, prefix, &mut |(k, v)| {
+                harness(|| {
+                    yielded.push((k.id(), v.id()));
+                    drop((k, v));
+                })
+            });
         });
         // each element handed to the predicate at most once, and only elements of the map
         let mut l2 = log.clone();
@@ -1005,9 +1018,10 @@ impl<T: El> MapWorld<T> {
             }
             _ => {
                 let want: Vec<(u32, u32)> = before.iter().copied().filter(|e| take.contains(&e.0)).collect();
-                if mode == MODE_CONSUME && y2 != want {
+                if iter_complete(mode) && y2 != want {
                     vbail!("mismatch", "drain_filter yielded {:?}, matching elements were {:?}", y2, want);
                 }
+                iter_post("drain_filter", mode, prefix, want.len(), yielded.len(), counted)?;
                 self.r.retain(|a, _| !take.contains(a));
             }
         }
@@ -1020,11 +1034,12 @@ impl<T: El> MapWorld<T> {
         let before: Vec<(u32, u32)> = self.r.iter().map(|(&a, &b)| (a, b)).collect();
         let n0 = before.len();
         let mut yielded: Vec<(u32, u32)> = Vec::with_capacity(n0 + 4);
+        let mut counted: Option<usize> = None;
         let mut bad: Option<String> = None;
         let mut dbg: Vec<(String, usize)> = Vec::with_capacity(2);
         self.call(|m| {
             let mut it = m.drain();
-            let limit = if mode == MODE_CONSUME { usize::MAX } else { prefix as usize };
+            let limit = iter_limit(mode, prefix);
             let mut n = 0;
             while n < limit {
                 let (lo, hi) = it.size_hint();
@@ -1053,11 +1068,12 @@ impl<T: El> MapWorld<T> {
                     }
                 }
             }
-            if mode == MODE_FORGET_AT {
-                std::mem::forget(it);
-            } else {
-                drop(it);
-            }
+            counted = finish_iter(it, mode, prefix, &mut |(k, v)| {
+                harness(|| {
+                    yielded.push((k.id(), v.id()));
+                    drop((k, v));
+                })
+            });
         });
         if let Some(b) = bad {
             vbail!("mismatch", "{}", b);
@@ -1099,9 +1115,10 @@ impl<T: El> MapWorld<T> {
                 vbail!("mismatch", "drain yielded {:?}; not an element", e);
             }
         }
-        if mode == MODE_CONSUME && y2 != before {
+        if iter_complete(mode) && y2 != before {
             vbail!("mismatch", "drain yielded {:?}, elements were {:?}", y2, before);
         }
+        iter_post("drain", mode, prefix, n0, yielded.len(), counted)?;
         if mode == MODE_FORGET_AT {
             // hashbrown's drain parks the table in the iterator; forgetting it leaks the table
             self.leaky = true;
@@ -1120,11 +1137,12 @@ impl<T: El> MapWorld<T> {
         let fresh = window(|| M::<T, T>::with_hasher(HB::new(hk, seed)));
         let old = std::mem::replace(&mut self.m, fresh);
         let mut yielded: Vec<(u32, u32)> = Vec::with_capacity(n0 + 4);
+        let mut counted: Option<usize> = None;
         let mut bad: Option<String> = None;
         let mut dbg: Vec<(String, usize)> = Vec::with_capacity(2);
         window(|| {
             let mut it = old.into_iter();
-            let limit = if mode == MODE_CONSUME { usize::MAX } else { prefix as usize };
+            let limit = iter_limit(mode, prefix);
             let mut n = 0;
             while n < limit {
                 let (lo, hi) = it.size_hint();
@@ -1153,11 +1171,12 @@ impl<T: El> MapWorld<T> {
                     }
                 }
             }
-            if mode == MODE_FORGET_AT {
-                std::mem::forget(it);
-            } else {
-                drop(it);
-            }
+            counted = finish_iter(it, mode, prefix, &mut |(k, v)| {
+                harness(|| {
+                    yielded.push((k.id(), v.id()));
+                    drop((k, v));
+                })
+            });
         });
         if let Some(b) = bad {
             vbail!("mismatch", "{}", b);
@@ -1199,9 +1218,10 @@ impl<T: El> MapWorld<T> {
                 vbail!("mismatch", "into_iter yielded {:?}; not an element", e);
             }
         }
-        if mode == MODE_CONSUME && y2 != before {
+        if iter_complete(mode) && y2 != before {
             vbail!("mismatch", "into_iter yielded {:?}, elements were {:?}", y2, before);
         }
+        iter_post("into_iter", mode, prefix, n0, yielded.len(), counted)?;
         if mode == MODE_FORGET_AT {
             self.leaky = true;
         }
@@ -1543,10 +1563,4 @@ impl<T: El> crate::engine::World for MapWorld<T> {
     fn capacity(&self) -> usize {
         self.m.capacity()
     }
-}
-
-/// Calls after which every element still in the map has the key object it had before (the entry
-/// methods that replace a key are handled per chain).
-fn keys_stay(k: OpK) -> bool {
-    !matches!(k, OpK::FromIter | OpK::CloneReplace | OpK::CloneFromInto | OpK::WithCapacity | OpK::IntoIter | OpK::Clear | OpK::Drain | OpK::RawInsertWrongHash)
 }
